@@ -68,6 +68,26 @@ def generate():
                 flat.append(ast.unparse(st))
         body += "/-- Handler.emit under the handler lock -/\n"
         body += "def emitCritical : List String := [%s]\n\n" % ", ".join(lean_str(x) for x in flat)
+        # C15: everything the worker thread outputs (sink write, error report on sys.stderr) happens under `lock`
+        # (= self._queue_lock, which acquire_locks() takes before a fork)
+        aliases = [ast.unparse(n.targets[0]) for n in qw.body if isinstance(n, ast.Assign) and len(n.targets) == 1
+                   and ast.unparse(n.value) == "self._queue_lock"]
+        lock_names = set(aliases) | {"self._queue_lock"}
+
+        def outputs(node):
+            return [c for c in ast.walk(node) if isinstance(c, ast.Call) and ast.unparse(c.func) in
+                    ("self._sink.write", "self._error_interceptor.print")]
+
+        all_out = outputs(qw)
+        locked = []
+        for w in ast.walk(qw):
+            if isinstance(w, ast.With) and len(w.items) == 1 and ast.unparse(w.items[0].context_expr) in lock_names:
+                locked.extend(outputs(w))
+        if not any(ast.unparse(c.func) == "self._sink.write" for c in all_out):
+            raise Unsupported("_queued_writer does not call self._sink.write")
+        body += "/-- every sink write and every error report of the worker thread is lexically inside `with <queue lock>` -/\n"
+        body += "def workerOutputUnderLock : Bool := %s\n\n" % (
+            "true" if all(any(c is l for l in locked) for c in all_out) else "false")
         # what travels through the queue is the formatted text with its record attached; the only part of a record
         # loguru itself makes picklable is the exception (RecordException.__reduce__ / _from_pickled_value)
         rtree, _ = parse_module("_recattrs.py")
